@@ -1,6 +1,10 @@
 import CodeLimit.Lemmas.NoclFold
 import CodeLimit.Lemmas.NoclSorted
 import CodeLimit.Lemmas.NoclExamples
+import CodeLimit.Lemmas.NoclSpans
+import CodeLimit.Props.C03
+import CodeLimit.Props.C05
+import CodeLimit.Props.C05text
 /-!
 # C17 - the `nocl` suppression marker
 
@@ -10,26 +14,68 @@ Adding or removing the marker on a function that neither encloses nor is nested 
 function changes nothing else: every other function keeps its name, span and length."
 
 Property theorems only; helper lemmas live in `CodeLimit/Lemmas/Nocl.lean` (marker text,
-`_filter_nocl_scopes`) and `CodeLimit/Lemmas/NoclFold.lean` (`fold_scopes`,
-`filter_scopes_nested_functions`, measurements).
+`_filter_nocl_scopes`), `CodeLimit/Lemmas/NoclFold.lean` (`fold_scopes`,
+`filter_scopes_nested_functions`, measurements), `CodeLimit/Lemmas/NoclSorted.lean` (order of
+the scopes) and `CodeLimit/Lemmas/NoclSpans.lean` (index containment versus reported spans).
 
-Vocabulary (all from the lemma files, each unfolds to model functions only):
+## How to read this file
 
-* `Marked all ℓ` - some comment token of `all` on line `ℓ` has a marker text
-  (`marked_iff`);
+Every theorem is tagged in its doc comment:
+
+* **OBSERVABLE** - a statement about what `scanFile` / `buildScopes` return (or, for
+  `marker_recognition`, about which comment texts count): `marker_recognition`, `leader_unique`,
+  `reported_nested`, `reported_nested_total`, `reported_flat_partial`,
+  `reported_flat_full_fails`, `toggle_buildScopes_partial`, `toggle_scanFile_partial`,
+  `toggle_buildScopes_gen_partial`, `toggle_scanFile_gen_partial`,
+  `toggle_scanFile_spans_partial`, `toggle_scanFile_spans_text_partial`, `huniq_needed`,
+  `huniq_needed_explicit`, `spans_flat_fails`. Their hypotheses still name the scopes
+  `rawScopes L code` that the algorithm pairs (header + block), because the marker is compared
+  with the line of the NAME token, which a measurement does not show; the source-level
+  versions (functions of a program text) are `C01marks.reported_functions` /
+  `C01marks.toggle_marker`.
+* **INTERNAL LEMMA** - about the stages of the model (`filterNocl`, `rawScopes`, `arrange`,
+  `foldParents`, `withChildren`, `filterNested`), used to prove the observable statements;
+  not observable output: `survives_iff`, `survivors_in_order`, `buildScopes_factor`,
+  `scanFile_factor`, `rawScopes_sorted`, `rawScopes_sorted_gen`, `fold_independent`,
+  `filterNested_independent`; and one LEXER FACT, `lexed_code_tokens_no_overlap`.
+* **READING AID** - `Iff.rfl` / `rfl`, a definition spelled out: `marked_iff`,
+  `rawScopes_def`, `arrange_def`.
+
+## Vocabulary
+
+Specification vocabulary (`CodeLimit/Spec/Nocl.lean`):
+
+* `Marked all ℓ` - some comment token of `all` on line `ℓ` has a marker text (`marked_iff`);
+* `PosSorted toks` - token locations increase strictly along the list;
+* `StartSorted sc` - strictly sorted by header start; `Independent sc x` - `x` neither
+  contains nor is contained in another scope of `sc`;
+* `Measurement.encloses`, `SpanIndependent ms k` - the same on the reported spans.
+
+Decompositions of the model (`CodeLimit/Lemmas/Nocl.lean`, each unfolds to model functions):
+
 * `rawScopes L code` - headers, blocks and `_build_scopes_from_headers_and_blocks` on the code
   tokens, i.e. `build_scopes` before `_filter_nocl_scopes` (`rawScopes_def`);
 * `arrange L fl` - the last step of `build_scopes` (+ `unfold_scopes`): `fold_scopes` for
-  languages with nested functions, `filter_scopes_nested_functions` otherwise (`arrange_def`);
-* `StartSorted sc` - strictly sorted by header start; `Independent sc x` - `x` neither
-  contains nor is contained in another scope of `sc`.
+  languages with nested functions, `filter_scopes_nested_functions` otherwise (`arrange_def`).
+
+## What is NOT proved, and why (witnesses below)
+
+* first sentence, languages without nested functions (C): only `reported_flat_partial`
+  (`reported_flat_full_fails`);
+* second sentence when ANOTHER function has its name on the marked line: false
+  (`huniq_needed`: C++ `f(){a;} g(){b;} // nocl` on one line reports nothing, marking `f`
+  also removes `g`); hence the hypothesis `huniq` and the suffix `_partial` of the toggle
+  theorems;
+* second sentence with independence read on the REPORTED spans, languages without nested
+  functions: false (`spans_flat_fails`), hence `hn : L.nested = true` in
+  `toggle_scanFile_spans_partial`.
 -/
 namespace CL.C17
 
-/-! ## T1 - what a marker is -/
+/-! ## T1 - what a marker is (OBSERVABLE: which comment texts count) -/
 
-/-- **Marker recognition.**  A comment text is a marker iff it is: an optional comment leader
-(`#`, `;`, `//` or `/*`), then - only if there is a leader - any number of blanks
+/-- **Marker recognition** (OBSERVABLE).  A comment text is a marker iff it is: an optional
+comment leader (`#`, `;`, `//` or `/*`), then - only if there is a leader - any number of blanks
 (`str.isspace` characters), then the four letters `nocl` in any mix of upper and lower case,
 then anything.
 
@@ -44,9 +90,9 @@ theorem marker_recognition (v : Str) :
         mark.map lowerAscii = [110, 111, 99, 108] :=
   isNoclText_iff v
 
-/-- The leader in `marker_recognition` is determined by the text, and it is the one the Python
-code strips: `#`/`;` if the text starts with it, else `//` or `/*` if the text starts with it,
-else none. -/
+/-- (OBSERVABLE) The leader in `marker_recognition` is determined by the text, and it is the one
+the Python code strips: `#`/`;` if the text starts with it, else `//` or `/*` if the text starts
+with it, else none. -/
 theorem leader_unique {v leader ws mark rest : Str}
     (hv : v = leader ++ ws ++ mark ++ rest)
     (hl : leader ∈ [[], [35], [59], [47, 47], [47, 42]])
@@ -95,14 +141,17 @@ example : ∃ leader ws mark rest,
     ws.all isSpaceChar = true ∧ mark.map lowerAscii = [110, 111, 99, 108] :=
   ⟨[35], [32], [78, 111, 67, 108], [58], by decide⟩
 
-/-! ## T2 - exactly the marked functions are dropped -/
+/-! ## T2 - exactly the marked functions are dropped
 
-/-- `Marked` spelled out -/
+### T2a - reading aids and lemmas about the internals -/
+
+/-- (READING AID, `Iff.rfl`) `Marked` spelled out -/
 theorem marked_iff (all : List Tok) (ℓ : Nat) :
     Marked all ℓ ↔ ∃ t ∈ all, t.isComment = true ∧ isNoclText t.val = true ∧ t.line = ℓ :=
   Iff.rfl
 
-/-- **`_filter_nocl_scopes` drops exactly the marked scopes**: a scope survives iff no comment
+/-- (INTERNAL LEMMA, about the model function `filterNocl`)
+**`_filter_nocl_scopes` drops exactly the marked scopes**: a scope survives iff no comment
 token with a marker text lies on the line of the scope's name token. -/
 theorem survives_iff (scopes : List Scope) (all : List Tok) (s : Scope) :
     s ∈ filterNocl scopes (noclTokens all) ↔
@@ -110,26 +159,27 @@ theorem survives_iff (scopes : List Scope) (all : List Tok) (s : Scope) :
         t.line = s.hdr.name.line :=
   mem_filterNocl_iff scopes all s
 
-/-- ... and it keeps the survivors in their order (and multiplicity). -/
+/-- (INTERNAL LEMMA) ... and it keeps the survivors in their order (and multiplicity). -/
 theorem survivors_in_order (scopes : List Scope) (all : List Tok) :
     filterNocl scopes (noclTokens all)
       = scopes.filter (fun s => decide (¬ Marked all s.hdr.name.line)) ∧
     (filterNocl scopes (noclTokens all)).Sublist scopes :=
   ⟨filterNocl_eq_filter scopes all, filterNocl_sublist scopes _⟩
 
-/-- `rawScopes` spelled out -/
+/-- (READING AID, `rfl`) `rawScopes` spelled out -/
 theorem rawScopes_def (L : Language) (code : List Tok) :
     rawScopes L code = (do
       let hs ← extractHeaders L code
       let bs ← extractBlocks L code hs
       buildScopes0 code hs bs) := rfl
 
-/-- `arrange` spelled out -/
+/-- (READING AID, `rfl`) `arrange` spelled out -/
 theorem arrange_def (L : Language) (fl : List Scope) :
     arrange L fl = if L.nested then withChildren fl (foldParents fl 0 [])
       else (filterNested fl none).map (fun s => (s, [])) := rfl
 
-/-- **Markers act only through `_filter_nocl_scopes`.**  `build_scopes` computes the scopes
+/-- (INTERNAL LEMMA: the right-hand side is a composition of model stages)
+**Markers act only through `_filter_nocl_scopes`.**  `build_scopes` computes the scopes
 from the code tokens alone, drops the marked ones and arranges the survivors; in particular a
 marker can neither cause nor hide an error of `build_scopes`. -/
 theorem buildScopes_factor (L : Language) (all : List Tok) :
@@ -137,8 +187,27 @@ theorem buildScopes_factor (L : Language) (all : List Tok) :
       (fun sc => arrange L (filterNocl sc (noclTokens all))) :=
   buildScopes_eq L all
 
-/-- **Lift to the report, languages with nested functions.**  The reported scopes are, in
-order, exactly the unmarked scopes. -/
+/-- (INTERNAL LEMMA) `scan_file` measures the arranged survivors. -/
+theorem scanFile_factor (L : Language) (all : List Tok) :
+    scanFile L all = match rawScopes L (filterTokens false all) with
+      | .error e => .error e
+      | .ok sc => measureAll (filterTokens false all) (arrange L (filterNocl sc (noclTokens all))) := by
+  unfold scanFile
+  rw [buildScopes_eq]
+  cases rawScopes L (filterTokens false all) <;> rfl
+
+/-! ### T2b - OBSERVABLE: what `buildScopes` reports -/
+
+/-- (OBSERVABLE, scope level) **Lift to the report, languages with nested functions.**
+IF `build_scopes` succeeds, the scopes it reports are, in order, exactly the unmarked elements
+of `rawScopes L code`.
+
+Read precisely: a "function" here is an element of `rawScopes L code`, i.e. a (header, block)
+pair that the algorithm formed from the code tokens - NOT a function of the source text (that
+reading is `C01marks.reported_functions` / `C01marks.toggle_marker`, for rendered program
+trees).  The statement is conditional: when `buildScopes L all` is an `.error` nothing is
+claimed (that this does not happen for the shipped languages is C03, `C03.buildScopes_total`;
+combined below in `reported_nested_total`). -/
 theorem reported_nested {L : Language} (hn : L.nested = true) {all : List Tok}
     {r : List (Scope × List Range)} (h : buildScopes L all = .ok r) :
     ∃ sc, rawScopes L (filterTokens false all) = .ok sc ∧
@@ -156,10 +225,24 @@ theorem reported_nested {L : Language} (hn : L.nested = true) {all : List Tok}
       rw [arrange_fst_nested hn]
       exact mem_filterNocl_iff sc all s
 
-/-- **Lift to the report, languages without nested functions (C).**  The reported scopes are
-a sublist of the unmarked scopes (so a marked function is never reported); an unmarked scope is
-missing only if `filter_scopes_nested_functions` dropped it, which does not happen to a scope
-that no unmarked scope contains.
+/-- (OBSERVABLE, scope level) `reported_nested` without the success hypothesis, for the six
+shipped languages with nested functions (all but C): `build_scopes` does succeed
+(`C03.buildScopes_total`), and what it reports are, in order, exactly the unmarked elements of
+`rawScopes L code`. -/
+theorem reported_nested_total {L : Language} (hL : L ∈ Gen.all.map (·.2))
+    (hn : L.nested = true) (all : List Tok) :
+    ∃ r sc, buildScopes L all = .ok r ∧ rawScopes L (filterTokens false all) = .ok sc ∧
+      r.map (·.1) = sc.filter (fun s => decide (¬ Marked all s.hdr.name.line)) ∧
+      ∀ s, s ∈ r.map (·.1) ↔ s ∈ sc ∧ ¬ Marked all s.hdr.name.line := by
+  obtain ⟨r, hr, _⟩ := C03.buildScopes_total L hL all
+  obtain ⟨sc, h1, h2, h3⟩ := reported_nested hn hr
+  exact ⟨r, sc, hr, h1, h2, h3⟩
+
+/-- (OBSERVABLE, scope level) **Lift to the report, languages without nested functions (C).**
+IF `build_scopes` succeeds, the reported scopes are a sublist of the unmarked elements of
+`rawScopes L code` (so a marked one is never reported); an unmarked scope is missing only if
+`filter_scopes_nested_functions` dropped it, which does not happen to a scope that no
+unmarked scope contains.
 
 `_partial`: the full statement would be the last clause of `reported_nested`,
 `∀ s, s ∈ r.map (·.1) ↔ s ∈ sc ∧ ¬ Marked all s.hdr.name.line`; it fails when the code tokens
@@ -193,9 +276,10 @@ theorem reported_flat_partial {L : Language} (hn : L.nested = false) {all : List
         exact hc y this.1 this.2
       · intro l hl; cases hl
 
-/-- The full "exactly when" clause fails for C on `f(){` / `g(){a;}` / `}`: without any marker
-the inner `g` is found by `build_scopes` and unmarked, yet omitted from the report (hidden by
-`filter_scopes_nested_functions`); and marking the outer `f` makes `g` appear in the report. -/
+/-- (OBSERVABLE, witness) The full "exactly when" clause fails for C on `f(){` / `g(){a;}` /
+`}`: without any marker the inner `g` is found by `build_scopes` and unmarked, yet omitted from
+the report (hidden by `filter_scopes_nested_functions`); and marking the outer `f` makes `g`
+appear in the report. -/
 theorem reported_flat_full_fails :
     (∃ all r sc s, buildScopes Gen.c all = .ok r ∧
       rawScopes Gen.c (filterTokens false all) = .ok sc ∧
@@ -210,21 +294,16 @@ theorem reported_flat_full_fails :
   rw [marked_iff_mem_lines]
   decide
 
-/-- `scan_file` measures the arranged survivors. -/
-theorem scanFile_factor (L : Language) (all : List Tok) :
-    scanFile L all = match rawScopes L (filterTokens false all) with
-      | .error e => .error e
-      | .ok sc => measureAll (filterTokens false all) (arrange L (filterNocl sc (noclTokens all))) := by
-  unfold scanFile
-  rw [buildScopes_eq]
-  cases rawScopes L (filterTokens false all) <;> rfl
+/-! ## T3 - toggling the marker of an independent function
 
-/-! ## T3 - toggling the marker of an independent function -/
+### T3a - lemmas about the internals -/
 
-/-- **The sortedness hypothesis of the theorems below is what `build_scopes` produces**:
-if the token locations (line, column) increase strictly along the code tokens (Python sorts the
-headers by the location of their first token) and no two headers start at the same token, the
-scopes come out strictly sorted by header start. -/
+/-- (INTERNAL LEMMA) **The sortedness hypothesis of the theorems below is what `build_scopes`
+produces**: if the token locations (line, column) increase strictly along the code tokens
+(Python sorts the headers by the location of their first token) and no two headers start at
+the same token, the scopes come out strictly sorted by header start.  The hypothesis `hnd` is
+itself about an intermediate result; `rawScopes_sorted_gen` discharges it for the shipped
+languages. -/
 theorem rawScopes_sorted {L : Language} {code : List Tok} {sc : List Scope}
     (hpos : code.Pairwise (fun a b => a.line < b.line ∨ (a.line = b.line ∧ a.col < b.col)))
     (hnd : ∀ hs, extractHeaders L code = .ok hs → (hs.map (·.rng.s)).Nodup)
@@ -232,10 +311,21 @@ theorem rawScopes_sorted {L : Language} {code : List Tok} {sc : List Scope}
     sc.Pairwise (fun a b => a.hdr.rng.s < b.hdr.rng.s) :=
   rawScopes_startSorted hpos hnd h
 
-/-- **`fold_scopes` and an independent scope.**  In a scope list strictly sorted by header
-start, removing a scope that neither contains nor is contained in another one leaves every
-other scope with exactly the same children (`foldParents` yields parent *indices*, which shift
-when a scope is removed; `withChildren` resolves them to the children's ranges). -/
+/-- (INTERNAL LEMMA) **For the seven shipped languages the scopes are strictly sorted by header
+start**, for every code token list whose locations increase strictly (a fact about the lexer
+output: C16 `kept_strictly_increasing`, `C05text.code_tokens_ordered`).  The distinct header
+starts come from `C05.headers_distinct_starts` (no further hypothesis). -/
+theorem rawScopes_sorted_gen {L : Language} (hL : L ∈ Gen.all.map (·.2)) {code : List Tok}
+    {sc : List Scope}
+    (hpos : code.Pairwise (fun a b => a.line < b.line ∨ (a.line = b.line ∧ a.col < b.col)))
+    (h : rawScopes L code = .ok sc) :
+    sc.Pairwise (fun a b => a.hdr.rng.s < b.hdr.rng.s) :=
+  rawScopes_sorted hpos (fun hs hhs => C05.headers_distinct_starts L hL code hs hhs) h
+
+/-- (INTERNAL LEMMA) **`fold_scopes` and an independent scope.**  In a scope list strictly
+sorted by header start, removing a scope that neither contains nor is contained in another one
+leaves every other scope with exactly the same children (`foldParents` yields parent *indices*,
+which shift when a scope is removed; `withChildren` resolves them to the children's ranges). -/
 theorem fold_independent {sc : List Scope} {x : Scope}
     (hs : sc.Pairwise (fun a b => a.hdr.rng.s < b.hdr.rng.s)) (hx : x ∈ sc)
     (hi : ∀ y ∈ sc, y ≠ x → x.contains y = false ∧ y.contains x = false) :
@@ -243,14 +333,24 @@ theorem fold_independent {sc : List Scope} {x : Scope}
       = (withChildren sc (foldParents sc 0 [])).filter (fun p => p.1 ≠ x) :=
   withChildren_foldParents_remove hs hx hi
 
-/-- **`filter_scopes_nested_functions` and an independent scope.** -/
+/-- (INTERNAL LEMMA) **`filter_scopes_nested_functions` and an independent scope.** -/
 theorem filterNested_independent {sc : List Scope} {x : Scope}
     (hs : sc.Pairwise (fun a b => a.hdr.rng.s < b.hdr.rng.s)) (hx : x ∈ sc)
     (hi : ∀ y ∈ sc, y ≠ x → x.contains y = false ∧ y.contains x = false) :
     filterNested (sc.filter (· ≠ x)) none = (filterNested sc none).filter (· ≠ x) :=
   filterNested_remove hs hx hi
 
-/-- **Toggling the marker of an independent function, scope level.**
+/-! ### T3b - OBSERVABLE: the toggle theorems
+
+All of them are `_partial`: the hypothesis
+
+  `huniq : ∀ y ∈ sc, y.hdr.name.line = x.hdr.name.line → y = x`
+
+(`x` is the ONLY scope whose name sits on the marked line) restricts the property's second
+sentence, and it cannot be dropped: `huniq_needed`. -/
+
+/-- (OBSERVABLE, scope level; formerly `toggle_buildScopes`)
+**Toggling the marker of an independent function.**
 
 `all` and `all'` are two token streams with the same code tokens whose marked lines differ
 exactly by the line of `x`'s name (`all'` has the marker, `all` has not); `x` is the only
@@ -258,8 +358,14 @@ scope with its name on that line and is independent among the scopes that are un
 `all`.  Then the scopes reported for `all'` are those reported for `all` without `x`'s entry:
 every other scope is reported at the same relative position with the same children.  Reading
 the equation from right to left covers removing the marker.  (If `rawScopes` fails, both sides
-are the same error by `buildScopes_factor`.) -/
-theorem toggle_buildScopes {L : Language} {all all' : List Tok} {sc : List Scope} {x : Scope}
+are the same error by `buildScopes_factor`.)
+
+`_partial` because of `huniq` (see `huniq_needed`).  The other hypotheses that speak of
+internals: `hsorted` is discharged for the shipped languages in
+`toggle_buildScopes_gen_partial`; `hind` (on `Scope.contains`) is replaced by a hypothesis on
+the reported spans in `toggle_scanFile_spans_partial`. -/
+theorem toggle_buildScopes_partial {L : Language} {all all' : List Tok} {sc : List Scope}
+    {x : Scope}
     (hcode : filterTokens false all' = filterTokens false all)
     (hraw : rawScopes L (filterTokens false all) = .ok sc)
     (hsorted : sc.Pairwise (fun a b => a.hdr.rng.s < b.hdr.rng.s))
@@ -280,14 +386,20 @@ theorem toggle_buildScopes {L : Language} {all all' : List Tok} {sc : List Scope
     have := (mem_filterNocl_iff sc all y).mp hy
     exact hind y this.1 this.2 hne
 
-/-- **Toggling the marker of an independent function, measurements.**
+/-- (OBSERVABLE, measurements; formerly `toggle_scanFile`)
+**Toggling the marker of an independent function.**
 
-Under the hypotheses of `toggle_buildScopes`: `x` is reported for `all` at a unique position
-`k`; if `scan_file` succeeds on `all` with measurements `ms`, it succeeds on `all'` with `ms`
-minus the `k`-th entry (`x`'s measurement) - all other measurements (name, span, length) are
-untouched and stay in order.  Conversely, if `scan_file` succeeds on `all'` with `ms'` and
-`x` itself can be measured (`m`), it succeeds on `all` with `m` inserted at position `k`. -/
-theorem toggle_scanFile {L : Language} {all all' : List Tok} {sc : List Scope} {x : Scope}
+Under the hypotheses of `toggle_buildScopes_partial`: `x` is reported for `all` at a unique
+position `k`; if `scan_file` succeeds on `all` with measurements `ms`, it succeeds on `all'`
+with `ms` minus the `k`-th entry (`x`'s measurement) - all other measurements (name, span,
+length) are untouched and stay in order.  Conversely, if `scan_file` succeeds on `all'` with
+`ms'` and `x` itself can be measured (`m`), it succeeds on `all` with `m` inserted at
+position `k`.  (For the shipped languages `scan_file` always succeeds and the two directions
+collapse into one equation: `toggle_scanFile_gen_partial`.)
+
+`_partial` because of `huniq` (see `huniq_needed`). -/
+theorem toggle_scanFile_partial {L : Language} {all all' : List Tok} {sc : List Scope}
+    {x : Scope}
     (hcode : filterTokens false all' = filterTokens false all)
     (hraw : rawScopes L (filterTokens false all) = .ok sc)
     (hsorted : sc.Pairwise (fun a b => a.hdr.rng.s < b.hdr.rng.s))
@@ -304,7 +416,7 @@ theorem toggle_scanFile {L : Language} {all all' : List Tok} {sc : List Scope} {
       (∀ ms' m, scanFile L all' = .ok ms' →
         measure (filterTokens false all) x scs[k].2 = .ok m →
         scanFile L all = .ok (ms'.insertIdx k m)) := by
-  have htog := toggle_buildScopes hcode hraw hsorted hx hun hmark huniq hind
+  have htog := toggle_buildScopes_partial hcode hraw hsorted hx hun hmark huniq hind
   have hfl_sorted : StartSorted (filterNocl sc (noclTokens all)) :=
     StartSorted.sublist hsorted (filterNocl_sublist _ _)
   have hx_fl : x ∈ filterNocl sc (noclTokens all) := (mem_filterNocl_iff sc all x).mpr ⟨hx, hun⟩
@@ -361,6 +473,282 @@ theorem toggle_scanFile {L : Language} {all all' : List Tok} {sc : List Scope} {
     apply measureAll_insertIdx _ _ _ _ hk _ hms'
     rw [hkx]
     exact hm
+
+/-- (OBSERVABLE, scope level) `toggle_buildScopes_partial` for the seven shipped languages: the
+internal invariant `hsorted` is replaced by `hpos`, a fact about the lexer output (the
+locations of the code tokens increase strictly: C16 / `C05text.code_tokens_ordered`).
+`_partial` because of `huniq` (see `huniq_needed`). -/
+theorem toggle_buildScopes_gen_partial {L : Language} (hL : L ∈ Gen.all.map (·.2))
+    {all all' : List Tok} {sc : List Scope} {x : Scope}
+    (hcode : filterTokens false all' = filterTokens false all)
+    (hraw : rawScopes L (filterTokens false all) = .ok sc)
+    (hpos : (filterTokens false all).Pairwise
+      (fun a b => a.line < b.line ∨ (a.line = b.line ∧ a.col < b.col)))
+    (hx : x ∈ sc) (hun : ¬ Marked all x.hdr.name.line)
+    (hmark : ∀ ℓ, Marked all' ℓ ↔ Marked all ℓ ∨ ℓ = x.hdr.name.line)
+    (huniq : ∀ y ∈ sc, y.hdr.name.line = x.hdr.name.line → y = x)
+    (hind : ∀ y ∈ sc, ¬ Marked all y.hdr.name.line → y ≠ x →
+      x.contains y = false ∧ y.contains x = false) :
+    buildScopes L all' = (buildScopes L all).map (List.filter (fun p => p.1 ≠ x)) :=
+  toggle_buildScopes_partial hcode hraw (rawScopes_sorted_gen hL hpos hraw) hx hun hmark huniq
+    hind
+
+/-- (OBSERVABLE, measurements) `toggle_scanFile_partial` for the seven shipped languages:
+`hsorted` is replaced by `hpos` (lexer fact), and since `scan_file` never fails for these
+languages (`C03.scanFile_total`) the two directions become ONE statement: `scan_file` returns
+some `ms` on `all`; `x` is reported at a unique position `k`, `ms[k]` is its measurement, and
+on `all'` `scan_file` returns `ms` without its `k`-th entry.  Read from `all` to `all'` this
+is adding the marker, from `all'` to `all` removing it.
+`_partial` because of `huniq` (see `huniq_needed`). -/
+theorem toggle_scanFile_gen_partial {L : Language} (hL : L ∈ Gen.all.map (·.2))
+    {all all' : List Tok} {sc : List Scope} {x : Scope}
+    (hcode : filterTokens false all' = filterTokens false all)
+    (hraw : rawScopes L (filterTokens false all) = .ok sc)
+    (hpos : (filterTokens false all).Pairwise
+      (fun a b => a.line < b.line ∨ (a.line = b.line ∧ a.col < b.col)))
+    (hx : x ∈ sc) (hun : ¬ Marked all x.hdr.name.line)
+    (hmark : ∀ ℓ, Marked all' ℓ ↔ Marked all ℓ ∨ ℓ = x.hdr.name.line)
+    (huniq : ∀ y ∈ sc, y.hdr.name.line = x.hdr.name.line → y = x)
+    (hind : ∀ y ∈ sc, ¬ Marked all y.hdr.name.line → y ≠ x →
+      x.contains y = false ∧ y.contains x = false) :
+    ∃ scs ms k, buildScopes L all = .ok scs ∧ scanFile L all = .ok ms ∧
+      ∃ (hk : k < scs.length) (hk' : k < ms.length), scs[k].1 = x ∧
+        (∀ j (hj : j < scs.length), scs[j].1 = x → j = k) ∧
+        measure (filterTokens false all) x scs[k].2 = .ok ms[k] ∧
+        scanFile L all' = .ok (ms.eraseIdx k) := by
+  obtain ⟨scs, k, hb, hk, hkx, huq, h1, _⟩ :=
+    toggle_scanFile_partial hcode hraw (rawScopes_sorted_gen hL hpos hraw) hx hun hmark huniq hind
+  obtain ⟨ms, hms⟩ := C03.scanFile_total L hL all
+  obtain ⟨⟨hk', hm⟩, herase⟩ := h1 ms hms
+  exact ⟨scs, ms, k, hb, hms, hk, hk', hkx, huq, hm, herase⟩
+
+/-- (OBSERVABLE, measurements) **Toggling the marker of a function whose REPORTED SPAN is
+independent**, shipped languages with nested functions (all but C).
+
+The independence hypothesis is stated on the report, not on `Scope.contains`:
+`SpanIndependent ms k` - the span (`sl, sc` .. `el, ec`) of the `k`-th measurement neither
+encloses nor is enclosed by the span of any other measurement of the report.
+
+Hypotheses: `all`, `all'` have the same code tokens; their locations increase strictly (`hpos`)
+and the tokens do not overlap (`hnov`: each code token ends - `Tok.endPos`, the position just
+past its text - no later than any later code token begins; both are facts about a lexer output,
+whose tokens are consecutive pieces of the text: `C05text.code_tokens_ordered` and
+`lexed_code_tokens_no_overlap`, used in `toggle_scanFile_spans_text_partial`); `x` is an
+unmarked element of `rawScopes`, the marked lines of `all'` are those of `all` plus the line of
+`x`'s name, and no other scope has its name on that line (`huniq`, needed: `huniq_needed`).
+
+Conclusion: `scan_file` returns some `ms` on `all`; `x` is reported at a position `k`, which is
+identified in the report by `x`'s name and by the location of `x`'s first token (no other entry
+starts there); and IF `SpanIndependent ms k`, `scan_file` on `all'` returns `ms` without its
+`k`-th entry - every other function keeps its name, span and length, in the same order.
+
+`hn` cannot be dropped: `spans_flat_fails`.  `hpos`, `hnov` are used to translate the
+token-index comparison of `Scope.contains` into positions (`encloses_of_contains`). -/
+theorem toggle_scanFile_spans_partial {L : Language} (hL : L ∈ Gen.all.map (·.2))
+    (hn : L.nested = true) {all all' : List Tok} {sc : List Scope} {x : Scope}
+    (hcode : filterTokens false all' = filterTokens false all)
+    (hraw : rawScopes L (filterTokens false all) = .ok sc)
+    (hpos : (filterTokens false all).Pairwise
+      (fun a b => a.line < b.line ∨ (a.line = b.line ∧ a.col < b.col)))
+    (hnov : (filterTokens false all).Pairwise (fun a b => posLe a.endPos (b.line, b.col)))
+    (hx : x ∈ sc) (hun : ¬ Marked all x.hdr.name.line)
+    (hmark : ∀ ℓ, Marked all' ℓ ↔ Marked all ℓ ∨ ℓ = x.hdr.name.line)
+    (huniq : ∀ y ∈ sc, y.hdr.name.line = x.hdr.name.line → y = x) :
+    ∃ ms k, scanFile L all = .ok ms ∧ ∃ hk : k < ms.length,
+      ms[k].name = x.hdr.name.val ∧
+      (∃ first, (filterTokens false all)[x.hdr.rng.s]? = some first ∧
+        (ms[k].sl, ms[k].sc) = (first.line, first.col)) ∧
+      (∀ j (hj : j < ms.length), (ms[j].sl, ms[j].sc) = (ms[k].sl, ms[k].sc) → j = k) ∧
+      (SpanIndependent ms k → scanFile L all' = .ok (ms.eraseIdx k)) := by
+  have hsorted := rawScopes_sorted_gen hL hpos hraw
+  have hfl_sorted : StartSorted (filterNocl sc (noclTokens all)) :=
+    StartSorted.sublist hsorted (filterNocl_sublist _ _)
+  have hx_fl : x ∈ filterNocl sc (noclTokens all) := (mem_filterNocl_iff sc all x).mpr ⟨hx, hun⟩
+  have hb : buildScopes L all = .ok (arrange L (filterNocl sc (noclTokens all))) := by
+    rw [buildScopes_eq, hraw]; rfl
+  generalize hscs : arrange L (filterNocl sc (noclTokens all)) = scs at hb
+  have hfst : scs.map (·.1) = filterNocl sc (noclTokens all) := by
+    rw [← hscs]; exact arrange_fst_nested hn _
+  obtain ⟨ms, hms⟩ := C03.scanFile_total L hL all
+  have hmeas : measureAll (filterTokens false all) scs = .ok ms := by
+    have := hms
+    unfold scanFile at this
+    rw [hb] at this
+    exact this
+  have hlen := measureAll_length _ _ _ hmeas
+  have hfst_mem : x ∈ scs.map (·.1) := by rw [hfst]; exact hx_fl
+  have hk : (scs.map (·.1)).idxOf x < scs.length := by
+    simpa using List.idxOf_lt_length_of_mem hfst_mem
+  have hkx : scs[(scs.map (·.1)).idxOf x].1 = x := by
+    have := List.getElem_idxOf (xs := scs.map (·.1)) (x := x) (by simpa using hk)
+    rw [List.getElem_map] at this
+    exact this
+  generalize (scs.map (·.1)).idxOf x = k at hk hkx
+  have hkm : k < ms.length := by omega
+  have hmk : measure (filterTokens false all) x scs[k].2 = .ok ms[k] := by
+    have := measureAll_getElem _ _ _ hmeas k hk hkm
+    rw [hkx] at this
+    exact this
+  obtain ⟨first, _, hfirst, _, _, hname, hstart, _⟩ := measure_ok_inv hmk
+  have hord := C05.source_order L hL all ms hpos hms
+  refine ⟨ms, k, hms, hkm, hname, ⟨first, hfirst, hstart⟩, ?_, ?_⟩
+  · intro j hj hjk
+    have h1 := Prod.mk.inj hjk
+    rcases Nat.lt_trichotomy j k with hlt | heq | hgt
+    · have := List.pairwise_iff_getElem.mp hord j k hj hkm hlt
+      omega
+    · exact heq
+    · have := List.pairwise_iff_getElem.mp hord k j hkm hj hgt
+      omega
+  · intro hsp
+    have hind_fl : Independent (filterNocl sc (noclTokens all)) x := by
+      have := independent_of_spans hpos hnov hmeas hk hsp
+      rwa [hfst, hkx] at this
+    have hind : ∀ y ∈ sc, ¬ Marked all y.hdr.name.line → y ≠ x →
+        x.contains y = false ∧ y.contains x = false := fun y hy hm hne =>
+      hind_fl y ((mem_filterNocl_iff sc all y).mpr ⟨hy, hm⟩) hne
+    obtain ⟨scs', k', hb', hk', hkx', huq, h1, _⟩ :=
+      toggle_scanFile_partial hcode hraw hsorted hx hun hmark huniq hind
+    rw [hb] at hb'
+    cases hb'
+    have : k = k' := huq k hk hkx
+    subst this
+    exact (h1 ms hms).2
+
+/-- (LEXER FACT, discharges `hnov`) The code tokens of a lexed text do not overlap: each ends
+(`Tok.endPos`) no later than any later one begins.  `RawOk code raw` is the lexer contract (the
+raw tokens tile the text, `Spec/Lex.lean`).  Its companion for `hpos` is
+`C05text.code_tokens_ordered`. -/
+theorem lexed_code_tokens_no_overlap {code : Str} {raw : List RawTok} (h : RawOk code raw) :
+    (filterTokens false (lex code raw false)).Pairwise
+      (fun a b => posLe a.endPos (b.line, b.col)) := by
+  rw [C05text.code_tokens_placed h, List.pairwise_map]
+  have hsub : (Compose.codeRaw raw).Sublist raw := List.filter_sublist
+  have hpw := (RawOkFrom.pairwise h).sublist hsub
+  refine (List.Pairwise.and_mem.1 hpw).imp ?_
+  intro r r' ⟨hr, hr', hle⟩
+  obtain ⟨_, _, hrt⟩ := RawOkFrom.text (pre := []) h rfl r (hsub.subset hr)
+  obtain ⟨_, hrb', _⟩ := RawOkFrom.text (pre := []) h rfl r' (hsub.subset hr')
+  simp only [List.nil_append] at hrt hrb'
+  rw [Compose.endPos_tokAt code r hrt]
+  show posLe _ (lineOf code r'.off, colOf code r'.off)
+  rcases Nat.lt_or_eq_of_le hle with hlt | heq
+  · have := posLt_of_lt code _ _ hlt (by omega)
+    unfold PosLt at this
+    unfold posLe
+    simp only
+    omega
+  · rw [heq]; exact posLe_refl _
+
+/-- (OBSERVABLE, measurements) `toggle_scanFile_spans_partial` for a LEXED TEXT: `all` is the
+output of `lex` on a text `code` with a lexer output `raw` that satisfies the lexer contract
+(`RawOk`) and has no empty non-whitespace token (`hne`, as in C05text / C16); then `hpos` and
+`hnov` hold and are no longer hypotheses.  `all'` is any token stream with the same code
+tokens (e.g. the lexed text with the comment added). -/
+theorem toggle_scanFile_spans_text_partial {L : Language} (hL : L ∈ Gen.all.map (·.2))
+    (hn : L.nested = true) {code : Str} {raw : List RawTok} (hraw0 : RawOk code raw)
+    (hne : ∀ t ∈ raw, t.kind ≠ 6 → t.val ≠ []) {all' : List Tok} {sc : List Scope} {x : Scope}
+    (hcode : filterTokens false all' = filterTokens false (lex code raw false))
+    (hraw : rawScopes L (filterTokens false (lex code raw false)) = .ok sc)
+    (hx : x ∈ sc) (hun : ¬ Marked (lex code raw false) x.hdr.name.line)
+    (hmark : ∀ ℓ, Marked all' ℓ ↔ Marked (lex code raw false) ℓ ∨ ℓ = x.hdr.name.line)
+    (huniq : ∀ y ∈ sc, y.hdr.name.line = x.hdr.name.line → y = x) :
+    ∃ ms k, scanFile L (lex code raw false) = .ok ms ∧ ∃ hk : k < ms.length,
+      ms[k].name = x.hdr.name.val ∧
+      (∃ first, (filterTokens false (lex code raw false))[x.hdr.rng.s]? = some first ∧
+        (ms[k].sl, ms[k].sc) = (first.line, first.col)) ∧
+      (∀ j (hj : j < ms.length), (ms[j].sl, ms[j].sc) = (ms[k].sl, ms[k].sc) → j = k) ∧
+      (SpanIndependent ms k → scanFile L all' = .ok (ms.eraseIdx k)) :=
+  toggle_scanFile_spans_partial hL hn hcode hraw (C05text.code_tokens_ordered hraw0 hne).1
+    (lexed_code_tokens_no_overlap hraw0) hx hun hmark huniq
+
+/-! ### T3c - the restrictions are needed (kernel-checked witnesses) -/
+
+/-- (OBSERVABLE, witness) **`huniq` is needed: the property's second sentence is false when
+another function's name sits on the marked line.**
+
+C++, ONE line, two functions: `f(){a;} g(){b;} // x` (`lineU`) versus
+`f(){a;} g(){b;} // nocl` (`lineM`); the tokens are those of the Pygments C++ lexer.
+
+* the two token lists differ ONLY in the text of their last token, the comment at the end of
+  the line (`// x` ↦ `// nocl`); in particular they have the same code tokens;
+* the names of both `f` and `g` (the scopes `sLf`, `sLg` of `rawScopes`) are on that line;
+* every OTHER hypothesis of `toggle_scanFile_partial` holds for `x := f`: the scopes are sorted,
+  `f` is unmarked in `lineU`, the marked lines of `lineM` are those of `lineU` plus `f`'s line,
+  `f` neither encloses nor is nested in `g` - only `huniq` fails;
+* without the marker `scan_file` reports `[f, g]`; with it, it reports NOTHING: marking `f`
+  also removed `g`.  "Every other function keeps its name, span and length" would require the
+  report `[g]`, i.e. `[mLf, mLg].eraseIdx 0`; the report is not of the form
+  `[mLf, mLg].eraseIdx k` for any `k`.
+
+The real code agrees (`/venv/bin/python`, `scan_file(lex(CppLexer(), text, False), C++)`):
+`[('f',1,1,1,8,1), ('g',1,9,1,16,1)]` for the first text, `[]` for the second. -/
+theorem huniq_needed_explicit :
+    -- same tokens up to the text of the final comment
+    (C17Ex.lineU.dropLast = C17Ex.lineM.dropLast ∧
+      C17Ex.lineU.getLast? = some (C17Ex.mk 5 [47, 47, 32, 120, 10] 1 17) ∧
+      C17Ex.lineM.getLast? = some (C17Ex.mk 5 [47, 47, 32, 110, 111, 99, 108, 10] 1 17)) ∧
+    filterTokens false C17Ex.lineM = filterTokens false C17Ex.lineU ∧
+    rawScopes Gen.cpp (filterTokens false C17Ex.lineU) = .ok [C17Ex.sLf, C17Ex.sLg] ∧
+    -- the other hypotheses of the toggle theorems, for `x := sLf`
+    [C17Ex.sLf, C17Ex.sLg].Pairwise (fun a b => a.hdr.rng.s < b.hdr.rng.s) ∧
+    ¬ Marked C17Ex.lineU C17Ex.sLf.hdr.name.line ∧
+    (∀ ℓ, Marked C17Ex.lineM ℓ ↔ Marked C17Ex.lineU ℓ ∨ ℓ = C17Ex.sLf.hdr.name.line) ∧
+    (∀ y ∈ [C17Ex.sLf, C17Ex.sLg], y ≠ C17Ex.sLf →
+      C17Ex.sLf.contains y = false ∧ y.contains C17Ex.sLf = false) ∧
+    SpanIndependent [C17Ex.mLf, C17Ex.mLg] 0 ∧
+    -- `huniq` fails: `g`'s name is on the same line
+    (C17Ex.sLg.hdr.name.line = C17Ex.sLf.hdr.name.line ∧ C17Ex.sLg ≠ C17Ex.sLf) ∧
+    -- the reports
+    scanFile Gen.cpp C17Ex.lineU = .ok [C17Ex.mLf, C17Ex.mLg] ∧
+    scanFile Gen.cpp C17Ex.lineM = .ok [] ∧
+    C17Ex.mLf.name = [102] ∧ C17Ex.mLg.name = [103] ∧
+    ∀ k, scanFile Gen.cpp C17Ex.lineM ≠ .ok ([C17Ex.mLf, C17Ex.mLg].eraseIdx k) := by
+  refine ⟨by decide, C17Ex.codeL_M.trans C17Ex.codeL_U.symm,
+    by rw [C17Ex.codeL_U]; exact C17Ex.rawL, by decide, C17Ex.marked_LU _, ?_, by decide,
+    by decide, by decide, C17Ex.scanL_U, C17Ex.scanL_M, rfl, rfl, ?_⟩
+  · intro ℓ
+    rw [C17Ex.marked_LM]
+    simp [C17Ex.marked_LU]
+    rfl
+  · intro k
+    rw [C17Ex.scanL_M]
+    intro h
+    have h := congrArg List.length (Except.ok.inj h)
+    rcases k with _ | _ | k <;> simp at h
+
+/-- (OBSERVABLE, witness) `huniq_needed_explicit` in one line: there are two token lists with
+the same code tokens (they differ by one marker comment) such that `scan_file` reports two
+functions for the first and none for the second - one marker removed two functions. -/
+theorem huniq_needed :
+    ∃ all all' mf mg, filterTokens false all' = filterTokens false all ∧
+      scanFile Gen.cpp all = .ok [mf, mg] ∧ scanFile Gen.cpp all' = .ok [] :=
+  ⟨C17Ex.lineU, C17Ex.lineM, C17Ex.mLf, C17Ex.mLg, C17Ex.codeL_M.trans C17Ex.codeL_U.symm,
+    C17Ex.scanL_U, C17Ex.scanL_M⟩
+
+/-- (OBSERVABLE, witness) **`hn` is needed in `toggle_scanFile_spans_partial`.**  C,
+`f(){` / `g(){a;}` / `}` (`codeN`) versus the same text with a marker comment at the end of
+line 1 (`codeNM`): without the marker the report is `[f]` - the reported span of `f` is
+trivially independent of all other reported spans, there are none - and with the marker the
+report is `[g]`, not `[]`: the hidden inner function appears.  (A hypothesis on the REPORTED
+functions cannot see `g`; this is `reported_flat_full_fails` at the level of measurements.) -/
+theorem spans_flat_fails :
+    Gen.c.nested = false ∧
+    filterTokens false C17Ex.codeNM = filterTokens false C17Ex.codeN ∧
+    (∀ ℓ, Marked C17Ex.codeNM ℓ ↔ Marked C17Ex.codeN ℓ ∨ ℓ = C17Ex.sNf.hdr.name.line) ∧
+    (∀ y ∈ [C17Ex.sNf, C17Ex.sNg], y.hdr.name.line = C17Ex.sNf.hdr.name.line → y = C17Ex.sNf) ∧
+    scanFile Gen.c C17Ex.codeN = .ok [C17Ex.mNf] ∧
+    SpanIndependent [C17Ex.mNf] 0 ∧
+    scanFile Gen.c C17Ex.codeNM = .ok [C17Ex.mNg] ∧
+    scanFile Gen.c C17Ex.codeNM ≠ .ok ([C17Ex.mNf].eraseIdx 0) := by
+  refine ⟨by decide, C17Ex.codeN_M.trans C17Ex.codeN_U.symm, ?_, by decide, C17Ex.scanN_U,
+    by decide, C17Ex.scanN_M, ?_⟩
+  · intro ℓ
+    rw [C17Ex.marked_NM]
+    simp [C17Ex.marked_N]
+    rfl
+  · rw [C17Ex.scanN_M]
+    decide
 
 /-! ## non-vacuity and necessity of the hypotheses
 
@@ -421,8 +809,8 @@ example :
   decide
 
 /-- End to end, C++ (`f(){a;}` / `g(){b;} // x` / `h(){c;}` versus the same text with the
-comment `// NoCl`): all hypotheses of `toggle_buildScopes` / `toggle_scanFile` hold for the
-middle function `g` ... -/
+comment `// NoCl`): all hypotheses of `toggle_buildScopes_partial` / `toggle_scanFile_partial`
+hold for the middle function `g` ... -/
 example :
     filterTokens false allM = filterTokens false allU ∧
     rawScopes Gen.cpp (filterTokens false allU) = .ok [sF, sG, sH] ∧
@@ -447,7 +835,8 @@ example :
 are reported exactly as before. -/
 example : scanFile Gen.cpp allM = .ok [mF, mH] := by
   obtain ⟨scs, k, hb, hk, hkx, huq, h1, _⟩ :=
-    toggle_scanFile (L := Gen.cpp) (all := allU) (all' := allM) (sc := [sF, sG, sH]) (x := sG)
+    toggle_scanFile_partial (L := Gen.cpp) (all := allU) (all' := allM) (sc := [sF, sG, sH])
+      (x := sG)
       (code_M.trans code_U.symm) (by rw [code_U]; exact raw3) (by decide) (by decide)
       (marked_U _)
       (by intro ℓ; rw [marked_M]; simp [marked_U]; rfl)
@@ -465,6 +854,96 @@ example : scanFile Gen.cpp allM = .ok [mF, mH] := by
   have hk1 : 1 = k := huq 1 (by decide) rfl
   subst hk1
   exact (h1 _ scanU).2
+
+theorem cpp_shipped : Gen.cpp ∈ Gen.all.map (·.2) := by simp [Gen.all]
+
+/-- the hypotheses of `rawScopes_sorted_gen` / `toggle_*_gen_partial` that replace `hsorted`:
+C++ is a shipped language and the code tokens of the three-function text are listed in
+strictly increasing position; the conclusion of `rawScopes_sorted_gen` for it -/
+example :
+    Gen.cpp ∈ Gen.all.map (·.2) ∧
+    (filterTokens false allU).Pairwise
+      (fun a b => a.line < b.line ∨ (a.line = b.line ∧ a.col < b.col)) ∧
+    [sF, sG, sH].Pairwise (fun a b => a.hdr.rng.s < b.hdr.rng.s) :=
+  ⟨cpp_shipped, by rw [code_U]; decide,
+    rawScopes_sorted_gen cpp_shipped (code := code3) (by decide) raw3⟩
+
+/-- `toggle_scanFile_gen_partial` on the same data: the report for the marked text -/
+example : scanFile Gen.cpp allM = .ok [mF, mH] := by
+  obtain ⟨scs, ms, k, hb, hms, hk, hk', hkx, huq, hm, herase⟩ :=
+    toggle_scanFile_gen_partial cpp_shipped (all := allU) (all' := allM) (sc := [sF, sG, sH])
+      (x := sG) (code_M.trans code_U.symm) (by rw [code_U]; exact raw3)
+      (by rw [code_U]; decide) (by decide) (marked_U _)
+      (by intro ℓ; rw [marked_M]; simp [marked_U]; rfl)
+      (by decide)
+      (by
+        have : ∀ y ∈ [sF, sG, sH], y ≠ sG → sG.contains y = false ∧ y.contains sG = false := by
+          decide
+        exact fun y hy _ hne => this y hy hne)
+  rw [scanU] at hms
+  cases hms
+  have hscs : scs = [(sF, []), (sG, []), (sH, [])] := by
+    have hf : filterNocl [sF, sG, sH] (noclTokens allU) = [sF, sG, sH] := by decide
+    rw [buildScopes_eq, code_U, raw3] at hb
+    simp only [Except.map, hf, arrange3] at hb
+    exact (Except.ok.inj hb).symm
+  subst hscs
+  have hk1 : 1 = k := huq 1 (by decide) rfl
+  subst hk1
+  exact herase
+
+/-- all hypotheses of `toggle_scanFile_spans_partial` hold for the middle function `g` of the
+three-function C++ text, and so does the span independence of its measurement (entry 1 of the
+report `[mF, mG, mH]`) -/
+example :
+    Gen.cpp ∈ Gen.all.map (·.2) ∧ Gen.cpp.nested = true ∧
+    filterTokens false allM = filterTokens false allU ∧
+    rawScopes Gen.cpp (filterTokens false allU) = .ok [sF, sG, sH] ∧
+    (filterTokens false allU).Pairwise
+      (fun a b => a.line < b.line ∨ (a.line = b.line ∧ a.col < b.col)) ∧
+    (filterTokens false allU).Pairwise (fun a b => posLe a.endPos (b.line, b.col)) ∧
+    sG ∈ [sF, sG, sH] ∧ ¬ Marked allU sG.hdr.name.line ∧
+    (∀ ℓ, Marked allM ℓ ↔ Marked allU ℓ ∨ ℓ = sG.hdr.name.line) ∧
+    (∀ y ∈ [sF, sG, sH], y.hdr.name.line = sG.hdr.name.line → y = sG) ∧
+    SpanIndependent [mF, mG, mH] 1 := by
+  refine ⟨cpp_shipped, by decide, code_M.trans code_U.symm, by rw [code_U]; exact raw3,
+    by rw [code_U]; decide, by rw [code_U]; decide, by decide, marked_U _, ?_, by decide,
+    by decide⟩
+  intro ℓ
+  rw [marked_M]
+  simp [marked_U]
+  rfl
+
+/-- ... and the theorem yields the report for the marked text from the spans alone -/
+example : scanFile Gen.cpp allM = .ok [mF, mH] := by
+  obtain ⟨ms, k, hms, hk, _, ⟨first, hf, hst⟩, _, h⟩ :=
+    toggle_scanFile_spans_partial cpp_shipped (by decide) (all := allU) (all' := allM)
+      (sc := [sF, sG, sH]) (x := sG) (code_M.trans code_U.symm) (by rw [code_U]; exact raw3)
+      (by rw [code_U]; decide) (by rw [code_U]; decide) (by decide) (marked_U _)
+      (by intro ℓ; rw [marked_M]; simp [marked_U]; rfl) (by decide)
+  rw [scanU] at hms
+  cases hms
+  -- `k` is the entry that starts where `g` starts
+  rw [code_U] at hf
+  have hf' : code3[sG.hdr.rng.s]? = some (mk 2 [103] 2 1) := by decide
+  rw [hf'] at hf
+  cases hf
+  have hk1 : k = 1 := by
+    rcases k with _ | _ | _ | k
+    · simp [mF, mk] at hst
+    · rfl
+    · simp [mH, mk] at hst
+    · simp at hk; omega
+  subst hk1
+  exact h (by decide)
+
+/-- span containment is the intended one: in Python, `def f():` / ` def g():` / `  pass` the
+two functions END at the same place; `f`'s span encloses `g`'s (non-strict at the end), not
+conversely -/
+example :
+    (⟨[102], 1, 1, 3, 7, 3⟩ : Measurement).encloses ⟨[103], 2, 2, 3, 7, 2⟩ ∧
+    ¬ (⟨[103], 2, 2, 3, 7, 2⟩ : Measurement).encloses ⟨[102], 1, 1, 3, 7, 3⟩ := by decide
+
 
 end Examples
 
